@@ -328,6 +328,29 @@ def header_rule(chk, P, rule="R-HDR"):
         okf = bool(vals) and None not in vals and not any(v2 & FIXED for v2 in vals)
         why = "mmap flags can take the values %s" % sorted(hex(v2) if v2 is not None else "unknown" for v2 in vals)
     chk.inst(rule, a, "mmap-is-a-hint", okf, "adopt maps with a plain address hint (no MAP_FIXED / MAP_FIXED_NOREPLACE bit), so an unavailable range surfaces as mmap_res != address -> EBUSY; %s" % why)
+    # what adopt unmaps on its own failure paths is what it mapped: munmap's address is the variable that received mmap()'s
+    # result (or one tested equal to it on every path to the call); the requested address differs from it exactly on the EBUSY path
+    resvar = None
+    if mm:
+        p9 = a.par(mm[0])
+        while p9 is not None and p9["k"] == "Cast":
+            p9 = a.par(p9)
+        if p9 is not None and assigned(p9) and assigned(p9)[1] == "=":
+            resvar = lv(assigned(p9)[0])
+        elif p9 is not None and p9["k"] == "Var":
+            resvar = p9["n"]
+    k9 = 0
+    for um in a.calls("munmap"):
+        k9 += 1
+        x9 = lv(args(um)[0])
+        st9 = m.before.get(um["id"], frozenset())
+        same = x9 is not None and x9 == resvar
+        if not same and x9 is not None and resvar is not None:
+            eq = ("%s == %s" % (x9, resvar), "%s == %s" % (resvar, x9))
+            ne = ("%s != %s" % (x9, resvar), "%s != %s" % (resvar, x9))
+            same = any((fc[0] in ("T", "R") and fc[1] in eq) or (fc[0] == "F" and fc[1] in ne) for fc in st9)
+        chk.inst(rule, a, "munmap-what-was-mapped#%d" % k9, same, "adopt's failure path unmaps `%s`; mmap()'s result is in `%s`%s" % (
+            x9, resvar, "" if same else ": on the EBUSY path the two differ, another mapping of the process is unmapped and adopt's own one leaks"), loc=a.loc(um))
     abi = list(a.calls("hwloc_topology_abi_check"))
     chk.inst(rule, a, "abi-check", len(abi) == 1, "hwloc_topology_abi_check(old) guards the use of the mapped topology")
     return n
